@@ -525,6 +525,28 @@ func c14ClientDecoders(c *Ctx) {
 				continue
 			}
 			tn := ir.TypeKey(T)
+			// a decoder that wraps "test for an error answer, then decode" around another decoder
+			// (decodeInitializeResponse): judged inside, and named after the decoder it ends in
+			for depth := 0; depth < 2; depth++ {
+				wrapper := ir.StaticCallee(dec)
+				var innerDec, innerTest *ssa.Call
+				ir.EachInstr(wrapper, func(_ *ssa.BasicBlock, _ int, in ssa.Instruction) {
+					if call, ok := in.(*ssa.Call); ok {
+						if sc := ir.StaticCallee(call); sc != nil && c.P.IsLib(sc) {
+							if isDecoder(sc) {
+								innerDec = call
+							}
+							if isErrTest(sc) {
+								innerTest = call
+							}
+						}
+					}
+				})
+				if innerDec == nil {
+					break
+				}
+				m, dec, errTest = wrapper, innerDec, innerTest
+			}
 			per[tn] = fname(ir.StaticCallee(dec))
 			order = append(order, tn)
 			// the error test guards the decoder
